@@ -538,7 +538,41 @@ def generate_solution(ix, R):
                 not why, key='; '.join(why), detail='; '.join(why), loc=f.loc())
 
 
+def nestle_handoff(ix, R):
+    """1.nestle.handoff: what store_nestle_output summarises is the sampler's result as returned - no point is dropped,
+    re-weighted or re-ordered between nestle.sample(...) and the summary (the stored samples and weights are "the
+    sampler's output unchanged")."""
+    site = NE + '::NestleOptimizer.compute_fit'
+    f = ix.func(site)
+    fl = mkflow(ix, site)
+    stmt = 'store_nestle_output receives the result of nestle.sample(...) unchanged'
+    st = calls(fl, 'store_nestle_output')
+    sm = [e for e in fl.of('assign') if isinstance(e.value, RF) and atom_of(fl, e.value) is not None and
+          atom_of(fl, e.value).head == 'call' and atom_of(fl, e.value).extra[0] in ('fn:nestle.sample', 'fn:sample')]
+    if len(st) != 1 or len(sm) != 1:
+        R.error('1.nestle.handoff', 'ARG', site, stmt, '%d store_nestle_output calls, %d nestle.sample results' % (len(st), len(sm)),
+                loc=f.loc())
+        return
+    res = sm[0]
+    why = []
+    if not st[0].args or not fl.tab.equal(st[0].args[0], res.value):
+        why.append('store_nestle_output(%s) is not given the sampler result' % [fmt(fl, a)[:60] for a in st[0].args])
+    if st[0].guards or st[0].loops:
+        why.append('the summary is computed conditionally')
+    for e in fl.of('store'):
+        d = unparse(e.target_ast)
+        if d.split('.')[0].split('[')[0] == res.name and fl.events.index(res) < fl.events.index(e) < fl.events.index(st[0]):
+            why.append('%s rewrites the sampler result before it is summarised' % unparse(e.node)[:70])
+    for e in fl.of('assign'):
+        if e.name == res.name and e is not res and fl.events.index(e) < fl.events.index(st[0]):
+            why.append('%s re-binds the sampler result before it is summarised' % unparse(e.node)[:70])
+    R.check('1.nestle.handoff', 'ARG', site, stmt, not why, key='; '.join(w[:90] for w in why), detail='; '.join(why),
+            loc=f.loc(st[0].node))
+
+
 def run(ix, R):
+    with R.guard('1.nestle.handoff', 'ARG', NE, 'nestle handoff'):
+        nestle_handoff(ix, R)
     with R.guard('1.nestle', 'ALG', NE, 'nestle summary'):
         nestle_store(ix, R)
     with R.guard('1.multinest', 'ALG', MN, 'multinest summary'):
